@@ -1,6 +1,9 @@
 SPECIFICATION Spec
 CONSTANTS
   MaxSent = 0
+  MaxConn = 0
+  MiuClasses <- MC_NoClasses
+  RwVals <- MC_NoClasses
   Kinds <- MC_Thorough
 INVARIANT SymmetricInv
 INVARIANT RangesInv
